@@ -326,6 +326,18 @@ Theorem C19_basis_idx_spec : forall n i j,
 Proof. exact basis_idx_spec. Qed.
 Print Assumptions C19_basis_idx_spec.
 
+(* call histories (correspondence stream "vhist"): the model's registers are immutable, a program
+   only appends; that the Go values behave the same way is checked by the harness, not proved *)
+Theorem C19_vhist_extends : forall prog regs regs',
+  vhist prog regs = Ok regs' -> exists ext, regs' = regs ++ ext /\ length ext = length prog.
+Proof. exact vhist_extends. Qed.
+Print Assumptions C19_vhist_extends.
+
+Example C19_vhist_ex :
+  vhist [VBasis 3 2; VAdd 0 0; VAdd 1 0; VAdd 1 0; VLsh 1 4] [] =
+  Ok [[0; 0; 1]; [0; 0; 2]; [0; 0; 3]; [0; 0; 3]; [0; 0; 32]].
+Proof. vm_compute. reflexivity. Qed.
+
 Example C19_vector_ex : length [1; 2; 3] = length [10; 20; -3] /\ vadd [1; 2; 3] [10; 20; -3] = Ok [11; 22; 0] /\
   length [1; 2] <> length [1] /\ vadd [1; 2] [1] = Panic ($"lenmismatch") /\
   vlsh [1; -3; 0] 4 = [16; -48; 0] /\ basis 4 2 = [0; 0; 1; 0] /\ basis 2 5 = [0; 0] /\
